@@ -146,9 +146,25 @@ def _entries(x):
 
 
 def _cmp_mv(tag, got, want, fkey=None):
+    claims = []
+    # a coefficient that is the same for every element may be stored as a plain number or broadcast: compare as broadcast
+    G = {k: np.asarray(v, dtype=object) for k, v in zip(got.keys(), got.values())}
+    W = {k: np.asarray(v, dtype=object) for k, v in zip(want.keys(), want.values())}
+    for k in set(G) & set(W):
+        if G[k].shape != W[k].shape:
+            try:
+                shp = np.broadcast_shapes(G[k].shape, W[k].shape)
+            except ValueError:
+                claims.append(Fail(f'{tag}:shape[{k}]', f'coefficient shape {G[k].shape} vs {W[k].shape}', fkey))
+                return claims
+            for pos, (g_, w_) in enumerate(zip(np.broadcast_to(G[k], shp).ravel(), np.broadcast_to(W[k], shp).ravel())):
+                claims.append(Eq(f'{tag}[{k},{pos}]', g_, w_, fkey))
+            G.pop(k); W.pop(k)
+    from kingdon.multivector import MultiVector as _MV
+    got = _MV.fromkeysvalues(got.algebra, tuple(G), list(G.values()))
+    want = _MV.fromkeysvalues(want.algebra, tuple(W), list(W.values()))
     ge, gs = _entries(got)
     we, ws = _entries(want)
-    claims = []
     for k in set(gs) & set(ws):
         if gs[k] != ws[k]:
             claims.append(Fail(f'{tag}:shape[{k}]', f'coefficient shape {gs[k]} vs {ws[k]}', fkey))
@@ -250,6 +266,32 @@ def run_case(desc, V):
                             claims.append(Eq(f'index{istr}:{cname}[{k},{pos}]', g_, w_, fkey=f'container-parity|advanced-index|{cname}'))
             claims.append(Eq('reached', 1, 1))
             return claims
+        if sub == 'number-plus-array' and len(desc['ka']) >= 2:
+            # coefficients of different rank: shape is the broadcast shape, and indexing must agree with it
+            from kingdon.multivector import MultiVector
+            ks = list(desc['ka'])[:2]
+            A = np.empty((2, 3), dtype=object); B = np.empty((3,), dtype=object)
+            for ix in np.ndindex(2, 3):
+                A[ix] = V.var(f'A_{ix[0]}_{ix[1]}')
+            for j in range(3):
+                B[j] = V.var(f'B_{j}')
+            u = alg.multivector(keys=tuple(ks), values=[A, B])
+            if tuple(u.shape) != (2, 2, 3):
+                claims.append(Fail('mixed-rank:shape', f'shape is {u.shape}, expected (2, 2, 3)', fkey='container-parity|mixed-rank'))
+            for m in range(2):
+                try:
+                    um = u[m]
+                except Exception as e:  # noqa
+                    claims.append(Fail(f'mixed-rank:u[{m}]:raises', f'u[{m}] raises {type(e).__name__}: {e}', fkey='container-parity|mixed-rank'))
+                    continue
+                want = MultiVector.fromkeysvalues(alg, tuple(ks), [A[m], B])
+                claims += _cmp_mv(f'mixed-rank:u[{m}]', um, want, fkey='container-parity|mixed-rank')
+            try:
+                n_it = sum(1 for _ in u.itermv())
+                if n_it != 6:
+                    claims.append(Fail('mixed-rank:itermv', f'itermv yields {n_it} elements, expected 6', fkey='container-parity|mixed-rank'))
+            except Exception as e:  # noqa
+                claims.append(Fail('mixed-rank:itermv:raises', f'itermv raises {type(e).__name__}: {e}', fkey='container-parity|mixed-rank'))
         if sub == 'number-plus-array':
             s_ = V.var('s')
             ks = [k for k in desc['ka'] if k != 0] or [1]
